@@ -58,7 +58,7 @@ impl<'a, S: GraphSnapshot> Iterator for FilterIter<'a, S> {
                     ) {
                         return Some(Err(err));
                     }
-                    let pass = crate::evaluator::evaluate_expression_bool(
+                    let value = crate::evaluator::evaluate_expression_value(
                         self.predicate,
                         &row,
                         self.snapshot,
@@ -68,8 +68,16 @@ impl<'a, S: GraphSnapshot> Iterator for FilterIter<'a, S> {
                     if let Err(err) = self.params.take_failure() {
                         return Some(Err(err));
                     }
-                    if pass {
-                        return Some(Ok(row));
+                    match value {
+                        Value::Bool(true) => return Some(Ok(row)),
+                        Value::Bool(false) | Value::Null => {}
+                        // A predicate is a boolean or null. Anything else is a type error, not
+                        // "false": NOT p and p IS NULL would drop the same row as well.
+                        _ => {
+                            return Some(Err(super::Error::Other(
+                                "runtime error: InvalidArgumentType".to_string(),
+                            )));
+                        }
                     }
                 }
                 Some(Err(e)) => return Some(Err(e)),
